@@ -16,32 +16,52 @@ open Generated
 
 /-! ### closed forms of the generated guards -/
 
-@[guard_eq] theorem cfg_payload_too_small_eq (p : Nat) : cfg_payload_too_small p = decide (p < DNS_MESSAGE_BUFFER_MIN_LENGTH) := rfl
-@[guard_eq] theorem cfg_payload_exceeds_buffer_eq (p b : Nat) : cfg_payload_exceeds_buffer p b = (decide (b > 0) && decide (p > b)) := rfl
+@[guard_eq] theorem cfg_payload_too_small_eq (p : Nat) : cfg_payload_too_small p = decide (p < DNS_MESSAGE_BUFFER_MIN_LENGTH) := by
+  unfold cfg_payload_too_small; guard_closed
+@[guard_eq] theorem cfg_payload_exceeds_buffer_eq (p b : Nat) : cfg_payload_exceeds_buffer p b = (decide (b > 0) && decide (p > b)) := by
+  unfold cfg_payload_exceeds_buffer; guard_closed
 
-@[guard_eq] theorem std_ups_eq (p b : Nat) : std_ups_field (std_ups p b) = Nat.min p b % 65536 := rfl
-@[guard_eq] theorem async_ups_eq (p b : Nat) : async_ups_field (async_ups p b) = Nat.min p b % 65536 := rfl
+@[guard_eq] theorem std_ups_eq (p b : Nat) : std_ups_field (std_ups p b) = Nat.min p b % 65536 := by
+  unfold std_ups_field std_ups; guard_closed
+@[guard_eq] theorem async_ups_eq (p b : Nat) : async_ups_field (async_ups p b) = Nat.min p b % 65536 := by
+  unfold async_ups_field async_ups; guard_closed
 
-@[guard_eq] theorem std_buf_too_short_eq (b : Nat) : std_buf_too_short b = decide (b < DNS_MESSAGE_BUFFER_MIN_LENGTH) := rfl
-@[guard_eq] theorem async_buf_too_short_eq (b : Nat) : async_buf_too_short b = decide (b < DNS_MESSAGE_BUFFER_MIN_LENGTH) := rfl
+@[guard_eq] theorem std_buf_too_short_eq (b : Nat) : std_buf_too_short b = decide (b < DNS_MESSAGE_BUFFER_MIN_LENGTH) := by
+  unfold std_buf_too_short; guard_closed
+@[guard_eq] theorem async_buf_too_short_eq (b : Nat) : async_buf_too_short b = decide (b < DNS_MESSAGE_BUFFER_MIN_LENGTH) := by
+  unfold async_buf_too_short; guard_closed
 
-@[guard_eq] theorem std_udp_branch_eq (u : Bool) : std_udp_branch u = u := rfl
-@[guard_eq] theorem async_udp_branch_eq (u : Bool) : async_udp_branch u = u := rfl
-@[guard_eq] theorem std_tcp_fallback_eq (tc ok : Bool) : std_tcp_fallback tc ok = (tc && ok) := rfl
-@[guard_eq] theorem async_tcp_fallback_eq (tc ok : Bool) : async_tcp_fallback tc ok = (tc && ok) := rfl
+@[guard_eq] theorem std_udp_branch_eq (u : Bool) : std_udp_branch u = u := by
+  unfold std_udp_branch; guard_closed
+@[guard_eq] theorem async_udp_branch_eq (u : Bool) : async_udp_branch u = u := by
+  unfold async_udp_branch; guard_closed
+@[guard_eq] theorem std_tcp_fallback_eq (tc ok : Bool) : std_tcp_fallback tc ok = (tc && ok) := by
+  unfold std_tcp_fallback; guard_closed
+@[guard_eq] theorem async_tcp_fallback_eq (tc ok : Bool) : async_tcp_fallback tc ok = (tc && ok) := by
+  unfold async_tcp_fallback; guard_closed
 
-@[guard_eq] theorem std_rrset_no_buffer_eq (c : Nat) : std_rrset_no_buffer c = (c == 0) := rfl
-@[guard_eq] theorem async_rrset_no_buffer_eq (c : Nat) : async_rrset_no_buffer c = (c == 0) := rfl
-@[guard_eq] theorem std_rrset_bad_class_eq (d : Bool) : std_rrset_bad_class d = !d := rfl
-@[guard_eq] theorem async_rrset_bad_class_eq (d : Bool) : async_rrset_bad_class d = !d := rfl
+@[guard_eq] theorem std_rrset_no_buffer_eq (c : Nat) : std_rrset_no_buffer c = (c == 0) := by
+  unfold std_rrset_no_buffer; guard_closed
+@[guard_eq] theorem async_rrset_no_buffer_eq (c : Nat) : async_rrset_no_buffer c = (c == 0) := by
+  unfold async_rrset_no_buffer; guard_closed
+@[guard_eq] theorem std_rrset_bad_class_eq (d : Bool) : std_rrset_bad_class d = !d := by
+  unfold std_rrset_bad_class; guard_closed
+@[guard_eq] theorem async_rrset_bad_class_eq (d : Bool) : async_rrset_bad_class d = !d := by
+  unfold async_rrset_bad_class; guard_closed
 
-@[guard_eq] theorem std_udp_id_reject_eq (a b : Nat) : std_udp_id_reject a b = (a != b) := rfl
-@[guard_eq] theorem async_udp_id_reject_eq (a b : Nat) : async_udp_id_reject a b = (a != b) := rfl
-@[guard_eq] theorem std_udp_question_match_eq (t c n : Bool) : std_udp_question_match t c n = (t && c && n) := rfl
-@[guard_eq] theorem async_udp_question_match_eq (t c n : Bool) : async_udp_question_match t c n = (t && c && n) := rfl
+@[guard_eq] theorem std_udp_id_reject_eq (a b : Nat) : std_udp_id_reject a b = (a != b) := by
+  unfold std_udp_id_reject; guard_closed
+@[guard_eq] theorem async_udp_id_reject_eq (a b : Nat) : async_udp_id_reject a b = (a != b) := by
+  unfold async_udp_id_reject; guard_closed
+@[guard_eq] theorem std_udp_question_match_eq (t c n : Bool) : std_udp_question_match t c n = (t && c && n) := by
+  unfold std_udp_question_match; guard_closed
+@[guard_eq] theorem async_udp_question_match_eq (t c n : Bool) : async_udp_question_match t c n = (t && c && n) := by
+  unfold async_udp_question_match; guard_closed
 
-@[guard_eq] theorem std_tcp_too_big_eq (n b : Nat) : std_tcp_too_big n b = decide (n > b) := rfl
-@[guard_eq] theorem async_tcp_too_big_eq (n b : Nat) : async_tcp_too_big n b = decide (n > b) := rfl
+@[guard_eq] theorem std_tcp_too_big_eq (n b : Nat) : std_tcp_too_big n b = decide (n > b) := by
+  unfold std_tcp_too_big; guard_closed
+@[guard_eq] theorem async_tcp_too_big_eq (n b : Nat) : async_tcp_too_big n b = decide (n > b) := by
+  unfold async_tcp_too_big; guard_closed
 
 /-- `u16::from_be_bytes([b0, b1]) as usize` on two octets is `b0 · 256 + b1` -/
 theorem std_tcp_prefix_eq (b0 b1 : Nat) (h0 : b0 < 256) (h1 : b1 < 256) : std_tcp_prefix b0 b1 = b0 * 256 + b1 := by
@@ -50,27 +70,34 @@ theorem std_tcp_prefix_eq (b0 b1 : Nat) (h0 : b0 < 256) (h1 : b1 < 256) : std_tc
   have hm : (b0 <<< 8) % 65536 = b0 <<< 8 := Nat.mod_eq_of_lt (by rw [hs]; omega)
   rw [hm, ← Nat.shiftLeft_add_eq_or_of_lt (by simpa using h1), hs]
 
-theorem async_tcp_prefix_eq (b0 b1 : Nat) (h0 : b0 < 256) (h1 : b1 < 256) : async_tcp_prefix b0 b1 = b0 * 256 + b1 :=
-  std_tcp_prefix_eq b0 b1 h0 h1
+theorem async_tcp_prefix_eq (b0 b1 : Nat) (h0 : b0 < 256) (h1 : b1 < 256) : async_tcp_prefix b0 b1 = b0 * 256 + b1 := by
+  unfold async_tcp_prefix
+  have hs : b0 <<< 8 = b0 * 256 := by rw [Nat.shiftLeft_eq]
+  have hm : (b0 <<< 8) % 65536 = b0 <<< 8 := Nat.mod_eq_of_lt (by rw [hs]; omega)
+  rw [hm, ← Nat.shiftLeft_add_eq_or_of_lt (by simpa using h1), hs]
 
 /-! ### the per-client selectors of the model, in closed form (both sources agree) -/
 
 theorem Cfg.bufTooShort_eq (c : Cfg) (b : Nat) : c.bufTooShort b = decide (b < DNS_MESSAGE_BUFFER_MIN_LENGTH) := by
-  unfold Cfg.bufTooShort; split <;> rfl
+  unfold Cfg.bufTooShort; split <;> simp only [async_buf_too_short_eq, std_buf_too_short_eq]
 theorem Cfg.udpBranch_eq (c : Cfg) : c.udpBranch = c.udpFirst := by
-  unfold Cfg.udpBranch; split <;> rfl
+  unfold Cfg.udpBranch; split <;> simp only [async_udp_branch_eq, std_udp_branch_eq]
 theorem Cfg.tcpFallback_eq (c : Cfg) (tc : Bool) : c.tcpFallback tc = (tc && c.tcpAllowed) := by
-  unfold Cfg.tcpFallback; split <;> rfl
+  unfold Cfg.tcpFallback; split <;> simp only [async_tcp_fallback_eq, std_tcp_fallback_eq]
 theorem Cfg.rrsetNoBuffer_eq (c : Cfg) : c.rrsetNoBuffer = (c.cfgbuf == 0) := by
-  unfold Cfg.rrsetNoBuffer; split <;> rfl
+  unfold Cfg.rrsetNoBuffer; split <;> simp only [async_rrset_no_buffer_eq, std_rrset_no_buffer_eq]
 theorem Cfg.rrsetBadClass_eq (c : Cfg) (d : Bool) : c.rrsetBadClass d = !d := by
-  unfold Cfg.rrsetBadClass; split <;> rfl
+  unfold Cfg.rrsetBadClass; split <;> simp only [async_rrset_bad_class_eq, std_rrset_bad_class_eq]
 theorem Cfg.ups_eq (c : Cfg) (p b : Nat) : c.ups p b = Nat.min p b % 65536 := by
-  unfold Cfg.ups; split <;> rfl
+  unfold Cfg.ups; split <;> simp only [async_ups_eq, std_ups_eq]
 
-@[guard_eq] theorem std_lifetime_over_eq (e l : Nat) : std_lifetime_over e l = decide (e ≥ l) := rfl
-@[guard_eq] theorem std_lifetime_left_eq (e l : Nat) : std_lifetime_left e l = l - e := rfl
-@[guard_eq] theorem std_attempt_over_eq (e t : Nat) : std_attempt_over e t = decide (e ≥ t) := rfl
-@[guard_eq] theorem std_query_left_eq (e t ll : Nat) : std_query_left e t ll = Nat.min (t - e) ll := rfl
+@[guard_eq] theorem std_lifetime_over_eq (e l : Nat) : std_lifetime_over e l = decide (e ≥ l) := by
+  unfold std_lifetime_over; guard_closed
+@[guard_eq] theorem std_lifetime_left_eq (e l : Nat) : std_lifetime_left e l = l - e := by
+  unfold std_lifetime_left; guard_closed
+@[guard_eq] theorem std_attempt_over_eq (e t : Nat) : std_attempt_over e t = decide (e ≥ t) := by
+  unfold std_attempt_over; guard_closed
+@[guard_eq] theorem std_query_left_eq (e t ll : Nat) : std_query_left e t ll = Nat.min (t - e) ll := by
+  unfold std_query_left; guard_closed
 
 end Rsdns
